@@ -49,6 +49,8 @@ def strategy(tier, shard, nshards):
         st.integers(0, 11).map(lambda i: {"k": "abs", "i": i}),
         st.integers(0, len(BENIGN) - 1).map(lambda i: {"k": "ok", "i": i}),
     )
+    # white space around the name (seeded/C09-3: a layer that strips the name after the parser has judged it)
+    name = st.tuples(name, st.sampled_from([0, 0, 0, 0, 1, 2, 3, 4])).map(lambda t: dict(t[0], ws=t[1]))
     step = st.builds(
         lambda c, n, e, star: {"cmd": c, "name": n, "enc": e, "star": star},
         st.integers(0, len(COMMANDS) - 1), name, st.integers(0, 3), st.integers(0, 3),
@@ -166,6 +168,10 @@ def execute(trace) -> CaseResult:
                 nm = ABS[nd["i"] % len(ABS)]
             else:
                 nm = BENIGN[nd["i"] % len(BENIGN)]
+            ws = nd.get("ws", 0)
+            if ws and nd["k"] != "ok":
+                nm = [" " + nm, nm + " ", "\t" + nm, "  " + nm + "  "][ws - 1]
+                res.labels.append("name:whitespace")
             escapes, exists = resolve(nm)
             if escapes and exists:
                 res.nontrivial = True
